@@ -162,31 +162,41 @@ class _CaseHang(BaseException):
     pass
 
 
+_GUARD = {'fired': False}
+
+
 def _on_case_alarm(*_):
+    _GUARD['fired'] = True
     raise _CaseHang()
 
 
-CASE_LIMIT_S = {'quick': 300, 'thorough': 1200}     # a case needs seconds; beyond this it is abandoned
+CASE_LIMIT_S = {'quick': 600, 'thorough': 1800}     # CPU seconds; a case needs seconds
 
 
 def _eval(mod, case, ctx, open_ids):
-    """ run prop; classify known findings not registered as violations. A case that does not
-    come back within CASE_LIMIT_S (the code under test runs in this process and may loop) is
-    abandoned and counted inconclusive: a time limit is never a violation """
+    """ run prop; classify known findings not registered as violations. A case that uses more
+    than CASE_LIMIT_S of CPU time (the code under test runs in this process and may loop) is
+    abandoned and counted inconclusive: a time limit is never a violation. The code under test
+    may swallow the exception that the timer raises (callVariant --skip-failed catches
+    everything and calls it a failed unit), so whatever prop returns after the timer has fired
+    is discarded as well """
     import signal
     # a CPU-time timer (SIGVTALRM): the tool under test installs its own SIGALRM handler for
     # --timeout-seconds and cancels pending alarms, so the real-time alarm cannot be shared
     prev = signal.signal(signal.SIGVTALRM, _on_case_alarm)
     limit = getattr(mod, 'CASE_LIMIT', CASE_LIMIT_S)[getattr(ctx, 'tier', 'quick')]
+    _GUARD['fired'] = False
     signal.setitimer(signal.ITIMER_VIRTUAL, limit)
     try:
         out = mod.prop(case, ctx)
     except _CaseHang:
         out = Outcome()
-        out.inconclusive = 'case_abandoned_after_%ds_cpu' % limit
     finally:
         signal.setitimer(signal.ITIMER_VIRTUAL, 0)
         signal.signal(signal.SIGVTALRM, prev)
+    if _GUARD['fired']:
+        out = Outcome()
+        out.inconclusive = 'case_abandoned_after_%ds_cpu' % limit
     if out.violation is None:
         unregistered = [k for k in out.known if k not in open_ids]
         if unregistered:
